@@ -560,10 +560,24 @@ class Interp:
         found = [st for st in body if isinstance(st, (ast.Assign, ast.AnnAssign)) and
                  any(isinstance(t, ast.Name) and t.id == name
                      for t in (st.targets if isinstance(st, ast.Assign) else [st.target]))]
-        if len(found) == 1 and found[0].value is not None and \
-                all(isinstance(x, (ast.Constant, ast.Dict, ast.List, ast.Tuple, ast.Set, ast.UnaryOp, ast.USub, ast.UAdd,
-                                   ast.Load, ast.BinOp, ast.Mult, ast.Div, ast.Pow, ast.Add, ast.Sub))
-                    for x in ast.walk(found[0].value)):
+        LIT = (ast.Constant, ast.Dict, ast.List, ast.Tuple, ast.Set, ast.UnaryOp, ast.USub, ast.UAdd,
+               ast.Load, ast.BinOp, ast.Mult, ast.Div, ast.Pow, ast.Add, ast.Sub)
+
+        def closed_lambda(x):
+            # a function of its own parameters alone means the same wherever it is evaluated (a dispatch table of formulas)
+            if not isinstance(x, ast.Lambda) or x.args.vararg or x.args.kwarg or x.args.defaults or x.args.kw_defaults:
+                return False
+            own = {a.arg for a in x.args.args + x.args.posonlyargs + x.args.kwonlyargs}
+            return all(y.id in own for y in ast.walk(x.body) if isinstance(y, ast.Name)) and \
+                not any(isinstance(y, (ast.Lambda, ast.NamedExpr, ast.Yield, ast.Await)) for y in ast.walk(x.body))
+
+        def literal(x):
+            if closed_lambda(x):
+                return True
+            if not isinstance(x, LIT):
+                return False
+            return all(literal(c) for c in ast.iter_child_nodes(x))
+        if len(found) == 1 and found[0].value is not None and literal(found[0].value):
             return found[0].value
         return None
 
@@ -589,7 +603,11 @@ class Interp:
         d = DictV()
         for k, v in zip(n.keys, n.values):
             kv = self.ev(k) if k is not None else None
-            key = kv.v if isinstance(kv, Lit) else kv.t.text() if isinstance(kv, S) and kv.t.is_literal() else repr(kv)
+            key = kv.v if isinstance(kv, Lit) else kv.t.text() if isinstance(kv, S) and kv.t.is_literal() else None
+            if key is None and isinstance(kv, Tup) and all(isinstance(e, Lit) or (isinstance(e, S) and e.t.is_literal()) for e in kv):
+                key = tuple(e.v if isinstance(e, Lit) else e.t.text() for e in kv)     # a table keyed by pairs of literals
+            if key is None:
+                key = repr(kv)
             d[key] = self.ev(v)
         return d
 
@@ -1016,6 +1034,25 @@ class Interp:
             if -len(o) <= k < len(o):
                 return o[k]
             raise Raised('IndexError', n.lineno)
+        if isinstance(o, DictV) and isinstance(i, Tup) and any(isinstance(k, tuple) for k in o):
+            # a table keyed by tuples of literals, looked up with a tuple of (possibly symbolic) strings / numbers
+            for k, v in o.items():
+                if not (isinstance(k, tuple) and len(k) == len(i)):
+                    continue
+                hit = True
+                for kc, ic in zip(k, i):
+                    if isinstance(ic, Lit):
+                        hit = hit and ic.v == kc
+                    else:
+                        ti_ = self.as_tstr(ic)
+                        if ti_ is None or not isinstance(kc, str):
+                            return Other('dict-lookup')
+                        hit = hit and self.str_equals(ti_, kc, n)
+                    if not hit:
+                        break
+                if hit:
+                    return v
+            raise Raised('KeyError', n.lineno)
         if isinstance(o, DictV) and o.pairs and not (isinstance(i, Lit) or (isinstance(i, S) and i.t.is_literal())):
             return o.pairs[-1][1]
         if isinstance(o, Obj) and 'elem' in o.attrs:
